@@ -57,5 +57,11 @@ fn fix_ring_doc(mut doc: Vec<u8>) -> Vec<u8> {
 }
 
 fn is_ring(bytes: &[u8]) -> bool {
-    bytes.find(RING_TEMPLATE_CONTEXT_SPECIFIC).is_some()
+    // Only documents with the shape that `fix_ring_doc` expects (a SEQUENCE whose single-byte
+    // length covers the rest of the document) can come from ring's template, anything else is
+    // left to the DER parser to accept or reject.
+    bytes.len() >= 2
+        && bytes[0] == 0x30
+        && bytes[1] as usize == bytes.len() - 2
+        && bytes.find(RING_TEMPLATE_CONTEXT_SPECIFIC).is_some()
 }
